@@ -55,6 +55,34 @@ OPTION_POOL = [[], ["-O0"], ["-O2"], ["-O3"], ["-feof-support"], ["-fyield-suppo
                ["-fcodepoints-in-errors"], ["-fverbose-ambig-errors"], ["-fzero-len-input-support"], ["-findirect-start-ptr"], ["-finclude-user-ptr"]]
 
 
+# small programs around constructs that once made the compiler die (each must give code or a diagnostic); compiled under three option rows
+DECL = "out int i0 = 0;\nout int i1 = 0;\nout bool b0 = false;\nout enum{EA,EB} e0;\nout str[4] s0;\nout raw{uint32_t} r0;\nhook h0;\nfinishcode F0;\n"
+ONCE_FATAL = [
+    'parser {\n i0 = 1;\n}\n', 'parser {\n h0();\n i0 = 1;\n}\n',
+    'parser {\n "\\q";\n}\n', 'parser {\n "\\xzz";\n}\n', 'parser {\n "\\x4";\n}\n', 'parser {\n "a\\u1234";\n}\n', 'parser {\n "a";\n i0 = \'\\q\';\n}\n',
+    'parser {\n "a";\n r0 = "abc";\n}\n', 'parser {\n "a";\n i0 += "a";\n}\n', 'parser {\n "a";\n b0 += /a/;\n}\n', 'parser {\n "a";\n e0 += "a";\n}\n',
+    'parser {\n "a";\n e0 = EZ;\n}\n', 'parser {\n "a";\n e0 = [EZ];\n}\n',
+    'parser {\n case {\n  else -> { "a"; }\n }\n}\n', 'parser {\n "k";\n case {\n  else -> { }\n }\n}\n',
+    'parser {\n optional {\n  if i0 == 1 { "a"; }\n }\n "b";\n}\n', 'parser {\n "k";\n optional {\n  h0();\n  "a";\n }\n "b";\n}\n',
+    'parser {\n case {\n  "a" -> {\n   if i0 == 1 { i1 = 2; }\n   i0 = 3;\n  }\n  "b" -> { }\n }\n "z";\n}\n',
+    'parser {\n case {\n  "a" -> {\n   if i0 == 1 { h0(); } else { i1 = 1; }\n   h0();\n   "q";\n  }\n }\n}\n',
+    'parser {\n /a+/;\n if i0 == 1 { "a"; } else { "b"; }\n}\n', 'parser {\n /a+/;\n if i0 == 1 { "a"; } elif i0 == 2 { "c"; }\n "d";\n}\n',
+    'parser {\n optional { "a"; }\n if i0 == 1 { "a"; } else { "b"; }\n}\n',
+    'macro m0() { }\nparser {\n "a";\n m0();\n "b";\n}\n', 'macro m0() { }\nparser {\n m0();\n}\n',
+    'parser {\n loop l1 {\n  loop {\n   "c";\n   if i0 == 1 { break; }\n  }\n  break l1;\n }\n "z";\n}\n',
+    'parser {\n loop l1 {\n  loop {\n   "c";\n   if i0 == 1 { break l1; } else { break; }\n  }\n  "d";\n }\n "z";\n}\n',
+    'parser {\n "a";\n b0 = [!(1000 + 3 == \'0\')];\n}\n', 'parser {\n "a";\n b0 = [2 * 3];\n}\n', 'parser {\n "a";\n e0 = [1 + 1];\n}\n',
+    'parser {\n case {\n  "a" -> {\n   if i0 == 1 { i1 = 2; }\n  }\n  "b" -> { }\n }\n i0 = 3;\n "z";\n}\n',
+    'parser {\n "k";\n case {\n  "a" -> {\n   if i0 == 1 { i1 = 2; } else { i1 = 3; }\n  }\n  else -> { }\n }\n h0();\n "z";\n}\n',
+    'parser {\n /a+/;\n if i0 == 1 { "a"; }\n}\n', 'parser {\n /a+/;\n if i0 == 1 { "a"; } else { h0(); }\n}\n',
+    'parser {\n loop {\n  /a+/;\n  if i0 == 1 { "a"; } else { break; }\n }\n}\n',
+    'parser {\n loop l1 {\n  loop {\n   "c";\n   if i0 == 1 { break; }\n  }\n  break l1;\n }\n}\n',
+    'parser {\n s0 += [i0];\n wait "0";\n}\n', 'parser {\n s0 += [i0];\n s0 += [i1];\n loop {\n  wait "0";\n }\n}\n',
+    'parser {\n try {\n  s0 += [i0];\n  wait "q";\n }\n catch (outofspace) {\n  "b";\n }\n wait "0";\n}\n',
+]
+ONCE_FATAL_DECLS = ["out int{unsigned, size 16} x;\n", "out int{signed, size 3} x;\n", "out int{size 0} x;\n"]
+
+
 def classify(r, src):
     fn = r.exc_where or "?"
     return "internal:%s@%s" % (r.exc_type, fn)
@@ -177,6 +205,11 @@ def run(ctx: Ctx):
         for args, extra in rows:
             for shape in shapes:
                 one(base_decl + extra + shape % stmt, args, "chaos-stmt")
+    for src in ONCE_FATAL:
+        for args in ([], ["-O3", "-feof-support"], ["-O0", "-fhook-per-state"]):
+            one(DECL + src, args, "once-fatal")
+    for decl in ONCE_FATAL_DECLS:
+        one(decl + 'parser {\n "a";\n x = 1;\n}\n', [], "once-fatal")
     for decl in CHAOS_DECLS:
         for args in ([], ["-fyield-support", "-O3"]):
             one("out int i0;\nhook h0;\nfinishcode F0;\n" + decl + '\nparser {\n "a";\n}\n', args, "chaos-decl")
